@@ -295,6 +295,16 @@ func kindEncode(dump string, arch binary.ByteOrder, kind string) (got []byte, ok
 			got, ok = nil, false
 		}
 	}()
+	if kind == "nonempty-buffer" {
+		// a bytes.Buffer that already holds something (a second file appended to a chain): what is
+		// appended is the same stream, and what was there stays
+		pre := []byte{0xDE, 0xAD, 0xBE, 0xEF, 0x01}
+		bb := bytes.NewBuffer(append([]byte{}, pre...))
+		if err := fit.Encode(bb, f, arch); err != nil || !bytes.HasPrefix(bb.Bytes(), pre) {
+			return nil, false
+		}
+		return bb.Bytes()[len(pre):], true
+	}
 	w := &recWriter{left: 1 << 40}
 	if kind == "bufio" {
 		bw := bufio.NewWriterSize(w, 64)
@@ -355,7 +365,7 @@ func init() {
 		// the same File into writers of other concrete types: a writer that is nothing but an io.Writer
 		// and a bufio.Writer (the buffer above is a bytes.Buffer, which also has WriteString, WriteByte
 		// and ReadFrom) receive the same bytes
-		for _, kind := range []string{"plain", "bufio"} {
+		for _, kind := range []string{"plain", "bufio", "nonempty-buffer"} {
 			if got, ok := kindEncode(a[1], archOf(a[0]), kind); !ok || !bytes.Equal(got, b) {
 				return fmt.Sprintf("writer-kind-differs kind=%s ok=%v received=%d of=%d", kind, ok, len(got), len(b))
 			}
